@@ -91,13 +91,14 @@ Jv(mc, m, a, clk) == [m |-> m, mc |-> mc, a |-> a, j |-> TRUE, clk |-> clk, sz |
 EvSize(e) == 12 + e.sz
 
 \* arguments decoded from a payload of n bytes holding the arguments of
-\* `a` (cut or padded with zeros): whole arguments of the format that fit,
-\* then one zero per 4 extra bytes
+\* `a` (cut, or padded with zeros): the whole arguments of the format that
+\* fit; bytes beyond the format count as one more (zero) argument per
+\* started group of 4, so that Len distinguishes every size from the exact one
 FitArgs(f, n) == Cardinality({k \in 1..Len(f) : SumTo(f, k) <= n})
 ArgsFor(m, a, n) ==
    LET f == ArgFmt(m)
        k == FitArgs(f, n)
-       extra == IF k = Len(f) THEN (n - SumTo(f, k)) \div 4 ELSE 0
+       extra == IF k = Len(f) THEN (n - SumTo(f, k) + 3) \div 4 ELSE 0
    IN  [x \in 1..(k + extra) |-> IF x <= Len(a) THEN a[x] ELSE 0]
 
 ValidHdr == <<111, 118, 110, 105, 1, 0, 0, 0>>            \* "ovni", version 1 (LE)
@@ -324,7 +325,7 @@ McvCases(s, k, st) ==
              n \in {y \in Substitutes : y[1] # st.evs[x].m /\ (ArgFmt(y[1]) = <<>> \/ st.evs[x].sz = 0)}}
           : x \in 1..Len(st.evs)}
 
-PaySizes == IF Deep THEN {0, 2, 4, 8, 12, 16} ELSE {0, 2, 4, 8, 12, 16}
+PaySizes == IF Deep THEN {0} \cup (2..16) ELSE {0, 2, 4, 6, 8, 12, 16}    \* what 4 bits of flags can encode
 SizeChecked(m) == ArgFmt(m) # <<>>
 PayCases(s, k, st) ==
    UNION {{Case(s, "pay", k, x, n, None) : n \in PaySizes \ {st.evs[x].sz}}
